@@ -141,6 +141,33 @@ def run(run, replay=None):
             got_entries = got[2] if len(got) > 2 else ""
             if got_entries != want_entries:
                 fails.append(("isolation", {"kind": "isolation"}, {"lines": m["lines"], "read": r, "expected_entries": want_entries}))
+    # whole dictionaries through the real writer and back through the real reader: every entry on a line of its own, the same
+    # entries read back (files of one line up to tens of KiB — a writer that buffers or batches must not lose a separator)
+    rw = [(m, impl2[i - 1], r) for i, ((l, m), r) in enumerate(zip(reqs, impl2)) if m["op"] == "rewrite" and i > 0 and reqs[i - 1][1]["op"] == "file"]
+    lines3 = []
+    for m, rd, wr in rw:
+        lines3.append("readall " + (wr[3:] if wr.startswith("ok ") else cl.cps("")))
+    impl3, model3 = common.run_both(run, lines3, "rewrite") if lines3 else ([], [])
+    if impl3 is None:
+        return
+    dis += common.diff(run, lines3, impl3, model3, "rewrite")
+    for (m, rd, wr), back in zip(rw, impl3):
+        n["file_roundtrip"] += 1
+        if not rd.startswith("ok ") or not wr.startswith("ok") or not back.startswith("ok "):
+            fails.append(("file-roundtrip", {"kind": "file-roundtrip", "how": "panic"}, {"lines": m["lines"][:50], "read": rd[:200], "written": wr[:200], "read_back": back[:200]}))
+            continue
+        ent = rd.split(" ", 2)
+        ent = [e for e in (ent[2].split(" ;; ") if len(ent) > 2 and ent[2] else [])]
+        ent2 = back.split(" ", 2)
+        ent2 = [e for e in (ent2[2].split(" ;; ") if len(ent2) > 2 and ent2[2] else [])]
+        text = cl.from_cps(wr[3:]) if len(wr) > 3 else ""
+        nlines = text.count("\n")
+        if sorted(ent) != sorted(ent2) or nlines != len(ent) or (text and not text.endswith("\n")):
+            lost = [cl.from_cps(e.split(" ; ")[0]) for e in ent if e not in ent2][:6]
+            fails.append(("file-roundtrip", {"kind": "file-roundtrip", "how": "lost" if len(ent2) < len(ent) else "differs"},
+                          {"entries_read_from_source": len(ent), "lines_written": nlines, "entries_read_back": len(ent2),
+                           "bytes_written": len(text.encode("utf-8")), "missing_after_round_trip": lost,
+                           "source_lines": m["lines"]}))
     seen = set()
     for kind, key, w in fails:
         k = json.dumps(key, sort_keys=True, ensure_ascii=False)
@@ -155,7 +182,7 @@ def run(run, replay=None):
         run.failures.append(cl.Failure("correspondence", "model Chokan.Model.DicText and dic::standard disagree on %d requests, e.g. %s"
                                        % (len(dis), json.dumps(dis[0], ensure_ascii=False)[:400]), detail=json.dumps(dis[:5], ensure_ascii=False)))
     run.cov.update({
-        "evaluations": len(lines1) + len(lines2),
+        "evaluations": len(lines1) + len(lines2) + len(lines3),
         "distinct_nontrivial": len(set(lines1)) + len({l for (l, m), r in zip(reqs, impl2) if r != "ok"}),
         "rule": "116 speeches x random kana readings (ぁ..ん, every kana at least once) x random stems over kanji/kana/ASCII symbols "
                 "incl. '/', ';', CR, full-width space, emoji; multi-speech lines; corrupted lines (8 mutation kinds); files mixing "
